@@ -450,6 +450,44 @@ pub fn crafted_lists() -> Vec<(Vec<u8>, bool)> {
     }
     out
 }
+/// LONGLIST: get-list responses whose *message* is longer than 2^16 (2^17) bytes because of the number of entries
+/// (entries of 8, 16 and 32 bytes, so that an offset that wraps at 2^16 lands on an entry boundary again), with the
+/// declared list length equal to / one above / far above (2^20, 2^32-1) the number of entries present; complete
+/// (trailer + checksum) or cut off behind the last entry. Returns (bytes, is a valid file).
+pub fn long_lists(thorough: bool) -> Vec<(Vec<u8>, bool)> {
+    let mut out = vec![];
+    let e8: Vec<u8> = vec![0x77, 0x01, 0x01, 0x01, 0x01, 0x01, 0x01, 0x01];
+    let e16: Vec<u8> = hex("77 07 01 00 01 08 00 ff 01 01 01 01 03 aa bb 01");
+    let mut e32: Vec<u8> = hex("77 07 01 00 01 08 00 ff 01 01 01 01 81 03");
+    e32.extend((1..=17).map(|k| k as u8));
+    e32.push(0x01);
+    assert!(e8.len() == 8 && e16.len() == 16 && e32.len() == 32);
+    let sizes: Vec<(Vec<u8>, usize)> = if thorough {
+        vec![(e8.clone(), 8200), (e8, 16400), (e16.clone(), 4100), (e16, 8200), (e32.clone(), 2048), (e32.clone(), 2100), (e32, 4200)]
+    } else {
+        vec![(e8, 8200), (e16, 4100), (e32.clone(), 2048), (e32, 4100)]
+    };
+    for (e, present) in sizes {
+        for declared in [present as u64, present as u64 + 1, 1 << 20, 0xffff_ffff] {
+            for hdr in ["76 02 0b 62 00 62 00 72 63 07 01 77 01 02 53 01 01", "76 02 aa 62 00 62 00 72 63 07 01 77 01 02 bb 01 01"] {
+                let mut m = hex(hdr);
+                m.extend(super_tlf(7, declared));
+                for _ in 0..present {
+                    m.extend(&e);
+                }
+                out.push((m.clone(), false)); // cut off behind the last entry
+                m.extend([0x01, 0x01]);
+                let d = crc16(&m);
+                m.extend([0x63, d as u8, (d >> 8) as u8, 0x00]);
+                out.push((m, declared == present as u64));
+                if declared != present as u64 {
+                    break;
+                }
+            }
+        }
+    }
+    out
+}
 /// valid files whose checksum field uses the short encoding `62 xx` (possible when the first wire byte of the checksum is 0):
 /// the transaction id is searched until the checksum allows it
 pub fn crafted_short_crc() -> Vec<Vec<u8>> {
